@@ -45,6 +45,7 @@ func runSequential(start time.Time, level slog.Level, input []byte) []handler.Me
 	go func() {
 		for m := range out {
 			msgs = append(msgs, m)
+			endless(len(msgs), len(input), "sequential framing")
 			tick()
 		}
 		close(done)
@@ -108,6 +109,7 @@ func runTimedX(input []byte, pauseAt map[int]time.Duration, consStall time.Durat
 				break
 			}
 			msgs = append(msgs, m)
+			endless(len(msgs), len(input), "stream handler with a stalling producer/consumer")
 			tick()
 		}
 		close(done)
